@@ -86,389 +86,394 @@ def check(ctx):
     # ---- (a) tables -----------------------------------------------------------------------
     want_keys = {(s, n) for s in ("no", "yes") for n in (False, True)}
     for mname, (disp, persp, cmd) in MAPS.items():
-        d = cassign.get(mname)
-        ctx.need(isinstance(d, ast.Dict), f"class-level dict Telnet.{mname}")
-        keys = {}
-        for k, v in zip(d.keys, d.values):
-            ok = isinstance(k, ast.Tuple) and len(k.elts) == 2 and all(isinstance(e, ast.Constant) for e in k.elts)
-            need(ctx, ok, f"{mname} key {src(k)}")
-            keys[(k.elts[0].value, k.elts[1].value)] = v
-        for key in sorted(want_keys, key=str):
-            c = f"{Q}{mname} | {key!r}"
-            v = keys.get(key)
-            if not ctx.check(v is not None, "table/exhaustive", c,
-                             f"{mname} has no entry for (state, negotiating) = {key!r}: telnet_{cmd} raises KeyError in that state and the "
-                             "negotiation never completes"):
+        with ctx.section(f"tables/{mname}"):
+            d = cassign.get(mname)
+            ctx.need(isinstance(d, ast.Dict), f"class-level dict Telnet.{mname}")
+            keys = {}
+            for k, v in zip(d.keys, d.values):
+                ok = isinstance(k, ast.Tuple) and len(k.elts) == 2 and all(isinstance(e, ast.Constant) for e in k.elts)
+                need(ctx, ok, f"{mname} key {src(k)}")
+                keys[(k.elts[0].value, k.elts[1].value)] = v
+            for key in sorted(want_keys, key=str):
+                c = f"{Q}{mname} | {key!r}"
+                v = keys.get(key)
+                if not ctx.check(v is not None, "table/exhaustive", c,
+                                 f"{mname} has no entry for (state, negotiating) = {key!r}: telnet_{cmd} raises KeyError in that state and the "
+                                 "negotiation never completes"):
+                    continue
+                fn = meths.get(v.id) if isinstance(v, ast.Name) else None
+                if ctx.check(fn is not None, "table/handler-exists", c, f"{mname}[{key!r}] = {src(v)} is not a method of Telnet"):
+                    if fn.name in handler_fns and handler_fns[fn.name] != (mname, key):
+                        ctx.violation("table/handler-unique", c, f"{fn.name} serves two different rows: {handler_fns[fn.name]} and {(mname, key)}; "
+                                      "the rows have different obligations")
+                    else:
+                        ctx.ok("table/handler-unique", c)
+                        handler_fns[fn.name] = (mname, key)
+            extra = set(keys) - want_keys
+            ctx.check(not extra, "table/exhaustive", f"{Q}{mname} | extra keys", f"{mname} has keys outside {{no,yes}}x{{False,True}}: {sorted(extra, key=str)}")
+
+            # dispatcher
+            f = ctx.func(TELNET, f"Telnet.{disp}")
+            qd = Q + disp
+            subs = [n for n in ast.walk(f) if isinstance(n, ast.Subscript) and isinstance(n.value, ast.Attribute) and n.value.attr.endswith("Map")
+                    and dotted(n.value.value) == "self"]
+            if not ctx.check(len(subs) == 1, "dispatch/indexes-own-table", qd, f"{disp} does not index exactly one negotiation table"):
                 continue
-            fn = meths.get(v.id) if isinstance(v, ast.Name) else None
-            if ctx.check(fn is not None, "table/handler-exists", c, f"{mname}[{key!r}] = {src(v)} is not a method of Telnet"):
-                if fn.name in handler_fns and handler_fns[fn.name] != (mname, key):
-                    ctx.violation("table/handler-unique", c, f"{fn.name} serves two different rows: {handler_fns[fn.name]} and {(mname, key)}; "
-                                  "the rows have different obligations")
-                else:
-                    ctx.ok("table/handler-unique", c)
-                    handler_fns[fn.name] = (mname, key)
-        extra = set(keys) - want_keys
-        ctx.check(not extra, "table/exhaustive", f"{Q}{mname} | extra keys", f"{mname} has keys outside {{no,yes}}x{{False,True}}: {sorted(extra, key=str)}")
+            sub = subs[0]
+            ctx.check(sub.value.attr == mname, "dispatch/indexes-own-table", ctx.construct(qd, sub),
+                      f"{disp} dispatches through {sub.value.attr} instead of {mname}")
+            opt = f.args.args[1].arg if len(f.args.args) > 1 else "option"
+            svars = [t.id for st in statements(f) if isinstance(st, ast.Assign) and isinstance(st.value, ast.Call)
+                     and call_name(st.value) == "self.getOptionState" and len(st.value.args) == 1 and src(st.value.args[0]) == opt
+                     for t in st.targets if isinstance(t, ast.Name)]
+            ctx.need(svars, f"{disp}: s = self.getOptionState({opt})")
+            s = svars[0]
+            idx = sub.slice
+            good = (isinstance(idx, ast.Tuple) and len(idx.elts) == 2 and is_attr(idx.elts[0], f"{s}.{persp}", "state")
+                    and is_attr(idx.elts[1], f"{s}.{persp}", "negotiating"))
+            ctx.check(good, "dispatch/perspective", ctx.construct(qd, sub),
+                      f"{disp} must index {mname} with ({s}.{persp}.state, {s}.{persp}.negotiating): a {cmd} from the peer is about the option on "
+                      f"{'his' if persp == 'him' else 'our'} side")
+            call = getattr(sub, "_parent", None)
+            okc = isinstance(call, ast.Call) and call.func is sub and [src(a) for a in call.args] == ["self", s, opt]
+            ctx.check(okc, "dispatch/handler-args", ctx.construct(qd, sub), f"the table handler is not called with (self, {s}, {opt})")
 
-        # dispatcher
-        f = ctx.func(TELNET, f"Telnet.{disp}")
-        qd = Q + disp
-        subs = [n for n in ast.walk(f) if isinstance(n, ast.Subscript) and isinstance(n.value, ast.Attribute) and n.value.attr.endswith("Map")
-                and dotted(n.value.value) == "self"]
-        if not ctx.check(len(subs) == 1, "dispatch/indexes-own-table", qd, f"{disp} does not index exactly one negotiation table"):
-            continue
-        sub = subs[0]
-        ctx.check(sub.value.attr == mname, "dispatch/indexes-own-table", ctx.construct(qd, sub),
-                  f"{disp} dispatches through {sub.value.attr} instead of {mname}")
-        opt = f.args.args[1].arg if len(f.args.args) > 1 else "option"
-        svars = [t.id for st in statements(f) if isinstance(st, ast.Assign) and isinstance(st.value, ast.Call)
-                 and call_name(st.value) == "self.getOptionState" and len(st.value.args) == 1 and src(st.value.args[0]) == opt
-                 for t in st.targets if isinstance(t, ast.Name)]
-        ctx.need(svars, f"{disp}: s = self.getOptionState({opt})")
-        s = svars[0]
-        idx = sub.slice
-        good = (isinstance(idx, ast.Tuple) and len(idx.elts) == 2 and is_attr(idx.elts[0], f"{s}.{persp}", "state")
-                and is_attr(idx.elts[1], f"{s}.{persp}", "negotiating"))
-        ctx.check(good, "dispatch/perspective", ctx.construct(qd, sub),
-                  f"{disp} must index {mname} with ({s}.{persp}.state, {s}.{persp}.negotiating): a {cmd} from the peer is about the option on "
-                  f"{'his' if persp == 'him' else 'our'} side")
-        call = getattr(sub, "_parent", None)
-        okc = isinstance(call, ast.Call) and call.func is sub and [src(a) for a in call.args] == ["self", s, opt]
-        ctx.check(okc, "dispatch/handler-args", ctx.construct(qd, sub), f"the table handler is not called with (self, {s}, {opt})")
-
-    # commandMap pairs each command byte with its dispatcher
-    init = ctx.func(TELNET, "Telnet.__init__")
-    cmaps = [st.value for st in statements(init) if isinstance(st, ast.Assign) and any(is_attr(t, "self", "commandMap") for t in st.targets)
-             and isinstance(st.value, ast.Dict)]
-    ctx.need(cmaps, "Telnet.__init__: self.commandMap = {...}")
-    got = {src(k): src(v) for k, v in zip(cmaps[0].keys, cmaps[0].values)}
-    for mname, (disp, persp, cmd) in MAPS.items():
-        ctx.check(got.get(cmd) == f"self.{disp}", "dispatch/command-map", f"{Q}__init__ | commandMap[{cmd}]",
-                  f"commandMap[{cmd}] is {got.get(cmd)!r}, not self.{disp}: received {cmd} commands reach the wrong table (or none)")
-    # the four private senders emit their own command byte
+    with ctx.section('dispatch/command-map'):
+        init = ctx.func(TELNET, "Telnet.__init__")
+        cmaps = [st.value for st in statements(init) if isinstance(st, ast.Assign) and any(is_attr(t, "self", "commandMap") for t in st.targets)
+                 and isinstance(st.value, ast.Dict)]
+        ctx.need(cmaps, "Telnet.__init__: self.commandMap = {...}")
+        got = {src(k): src(v) for k, v in zip(cmaps[0].keys, cmaps[0].values)}
+        for mname, (disp, persp, cmd) in MAPS.items():
+            ctx.check(got.get(cmd) == f"self.{disp}", "dispatch/command-map", f"{Q}__init__ | commandMap[{cmd}]",
+                      f"commandMap[{cmd}] is {got.get(cmd)!r}, not self.{disp}: received {cmd} commands reach the wrong table (or none)")
     for snd in SENDS:
-        f = ctx.func(TELNET, f"Telnet.{snd}")
-        ws = [c for c in ast.walk(f) if isinstance(c, ast.Call) and _raw_write(c)]
-        good = len(ws) == 1 and len(ws[0].args) == 1 and src(ws[0].args[0]) == f"IAC + {snd[1:].upper()} + {f.args.args[1].arg}"
-        ctx.check(good, "send/command-byte", Q + snd, f"{snd} does not write exactly IAC + {snd[1:].upper()} + option")
-    consts = {}
-    for st in mod.tree.body:
-        if isinstance(st, ast.Assign) and len(st.targets) == 1 and isinstance(st.targets[0], ast.Name) and isinstance(st.value, ast.Call) \
-                and call_name(st.value) == "_chr" and len(st.value.args) == 1 and isinstance(st.value.args[0], ast.Constant):
-            consts[st.targets[0].id] = st.value.args[0].value
-    cmdvals = [consts.get(c) for c in ("WILL", "WONT", "DO", "DONT")]
-    ctx.check(None not in cmdvals and len(set(cmdvals)) == 4, "send/command-byte", "twisted.conch.telnet | WILL/WONT/DO/DONT",
-              f"the four negotiation command bytes are not pairwise distinct: {cmdvals}")
+        with ctx.section(f"senders/{snd}"):
+            f = ctx.func(TELNET, f"Telnet.{snd}")
+            ws = [c for c in ast.walk(f) if isinstance(c, ast.Call) and _raw_write(c)]
+            good = len(ws) == 1 and len(ws[0].args) == 1 and src(ws[0].args[0]) == f"IAC + {snd[1:].upper()} + {f.args.args[1].arg}"
+            ctx.check(good, "send/command-byte", Q + snd, f"{snd} does not write exactly IAC + {snd[1:].upper()} + option")
+    with ctx.section('command-bytes'):
+        consts = {}
+        for st in mod.tree.body:
+            if isinstance(st, ast.Assign) and len(st.targets) == 1 and isinstance(st.targets[0], ast.Name) and isinstance(st.value, ast.Call) \
+                    and call_name(st.value) == "_chr" and len(st.value.args) == 1 and isinstance(st.value.args[0], ast.Constant):
+                consts[st.targets[0].id] = st.value.args[0].value
+        cmdvals = [consts.get(c) for c in ("WILL", "WONT", "DO", "DONT")]
+        ctx.check(None not in cmdvals and len(set(cmdvals)) == 4, "send/command-byte", "twisted.conch.telnet | WILL/WONT/DO/DONT",
+                  f"the four negotiation command bytes are not pairwise distinct: {cmdvals}")
 
-    # ---- (b)+(c) rows --------------------------------------------------------------------
-    nrows = 0
+        # ---- (b)+(c) rows --------------------------------------------------------------------
+        nrows = 0
     for fname, (mname, key) in sorted(handler_fns.items()):
-        row = ROWS[mname][key]
-        persp = MAPS[mname][1]
-        other = "us" if persp == "him" else "him"
-        f = meths[fname]
-        ctx.functions.add(f"{TELNET}:Telnet.{fname}")
-        g = ctx.cfg(f)
-        q = Q + fname
-        sv = f.args.args[1].arg if len(f.args.args) > 1 else "state"
-        nrows += 1
-        send_nodes = call_nodes(g, lambda c: _is_send(c) or _raw_write(c))
-        send_calls = {n: calls_at(g, n, lambda c: _is_send(c) or _raw_write(c)) for n in send_nodes}
-        writes = [(n, w) for n in stmts(g, lambda st: bool(_field_write(st, sv))) for w in _field_write(g.node(n).ast, sv)]
-        # nothing in a table handler may touch the other perspective
-        for n, (p, fld, v) in writes:
-            ctx.check(p == persp, "row/perspective", ctx.construct(q, g.node(n).ast),
-                      f"handler of {mname}{key!r} writes {sv}.{p}.{fld}; a {MAPS[mname][2]} is about the '{persp}' side only")
-        mine = [(n, fld, v) for n, (p, fld, v) in writes if p == persp]
-        kind = row[0]
-        if kind in ("noop", "bogus", "ack"):
-            for n in send_nodes:
-                ctx.check(False, "loop-freedom/no-reply", ctx.construct(q, g.node(n).ast),
-                          f"row {mname}{key!r} ({'already in the requested state' if kind == 'noop' else 'acknowledgement of our own request' if kind == 'ack' else 'unreachable'}) "
-                          "answers the peer: two such endpoints bounce messages forever (RFC 1143)")
-            if not send_nodes:
-                ctx.ok("loop-freedom/no-reply", q)
-        if kind == "noop":
-            for n, fld, v in mine:
-                ctx.check(False, "row/noop-keeps-state", ctx.construct(q, g.node(n).ast),
-                          f"row {mname}{key!r} must not change {sv}.{persp}.{fld}")
-            if not mine:
-                ctx.ok("row/noop-keeps-state", q)
-        elif kind == "ack":
-            newstate, fire = row[1], row[2]
-            clears = [n for n, fld, v in mine if fld == "negotiating" and const_is(v, False)]
-            detach = [n for n, fld, v in mine if fld == "onResult" and const_is(v, None)]
-            swrites = [(n, v) for n, fld, v in mine if fld == "state"]
-            # local(s) holding the detached Deferred
-            dvars = {t.id for st in statements(f) if isinstance(st, ast.Assign) and is_attr(st.value, f"{sv}.{persp}", "onResult")
-                     for t in st.targets if isinstance(t, ast.Name)}
-            def is_fire(c, any_kind=True):
-                if not (isinstance(c.func, ast.Attribute) and c.func.attr in ("callback", "errback")):
-                    return False
-                r = c.func.value
-                return (isinstance(r, ast.Name) and r.id in dvars) or is_attr(r, f"{sv}.{persp}", "onResult")
-            fires = call_nodes(g, is_fire)
-            ctx.check(len(fires) == 1, "ack/fires-once", q,
-                      f"row {mname}{key!r} must fire the request Deferred at exactly one site (found {len(fires)})")
-            for n, fld, v in mine:
-                if fld == "negotiating" and not const_is(v, False):
-                    ctx.check(False, "ack/clears-negotiating", ctx.construct(q, g.node(n).ast), "an acknowledgement row sets negotiating to something other than False")
-                if fld == "onResult" and not const_is(v, None):
-                    ctx.check(False, "ack/detaches", ctx.construct(q, g.node(n).ast), "an acknowledgement row stores a new onResult")
-            w = edge_path(g, [g.entry], [g.exit], avoid_nodes=clears)
-            ctx.check(bool(clears) and w is None, "ack/clears-negotiating", q,
-                      f"{sv}.{persp}.negotiating stays True after the peer answered: every later request fails with AlreadyNegotiating and "
-                      "the next answer is routed to the *_true row again", witness=g.describe(w))
-            w = edge_path(g, [g.entry], [g.exit], avoid_nodes=detach)
-            ctx.check(bool(detach) and w is None, "ack/detaches", q,
-                      f"{sv}.{persp}.onResult is not reset to None: connectionLost (or the next answer) fires the same Deferred again",
-                      witness=g.describe(w))
-            w = edge_path(g, [g.entry], [g.exit], avoid_nodes=fires)
-            ctx.check(bool(fires) and w is None, "ack/fires-once", q + " | every path",
-                      "the handler can return without firing the request Deferred: the caller waits forever", witness=g.describe(w))
-            for fn_ in fires:
-                c = calls_at(g, fn_, is_fire)[0]
-                isname = isinstance(c.func.value, ast.Name)
-                ctx.check(isname, "ack/detaches", ctx.construct(q, c), "the Deferred is fired through the attribute, not through a detached local")
-                ctx.check(c.func.attr == fire, "ack/result-kind", ctx.construct(q, c),
-                          f"row {mname}{key!r} must {fire} (the peer {'refused' if fire == 'errback' else 'agreed'})")
-                if fire == "callback":
-                    ctx.check(len(c.args) == 1 and const_is(c.args[0], True), "ack/result-kind", ctx.construct(q, c) + " | value",
-                              "a successful negotiation fires with True")
-                else:
-                    ctx.check(len(c.args) == 1 and "OptionRefused" in src(c.args[0]), "ack/result-kind", ctx.construct(q, c) + " | value",
-                              "a refused negotiation fails with OptionRefused")
-                for what, nodes, why in (("negotiating cleared", clears, "a callback that issues a new request sees AlreadyNegotiating"),
-                                         ("onResult detached", detach, "a re-entrant answer or connectionLost fires it a second time"),
-                                         ("state updated", [n for n, v in swrites], "a callback observes the stale option state")):
-                    if not nodes:
-                        continue
-                    w = g.must_precede(nodes, [fn_], exc=False)
-                    ctx.check(w is None, "ack/fire-last", ctx.construct(q, c) + f" | {what}",
-                              f"the Deferred is fired before {what}: {why}", witness=g.describe(w))
-                w = edge_path(g, [fn_], [fn_], strict=True)
-                ctx.check(w is None, "ack/fires-once", ctx.construct(q, c) + " | loop", "the fire site can execute twice")
-            if newstate is None:
-                for n, v in swrites:
-                    ctx.check(False, "ack/state", ctx.construct(q, g.node(n).ast), f"a refusal must leave {sv}.{persp}.state unchanged")
-                if not swrites:
-                    ctx.ok("ack/state", q)
-            else:
-                good = [n for n, v in swrites if const_is(v, newstate)]
-                for n, v in swrites:
-                    ctx.check(const_is(v, newstate), "ack/state", ctx.construct(q, g.node(n).ast),
-                              f"row {mname}{key!r} must set {sv}.{persp}.state = {newstate!r}")
-                w = edge_path(g, [g.entry], [g.exit], avoid_nodes=good)
-                ctx.check(bool(good) and w is None, "ack/state", q,
-                          f"{sv}.{persp}.state is not set to {newstate!r} although the peer acknowledged: the two sides disagree about the option",
+        with ctx.section(f"rows/{fname}"):
+            row = ROWS[mname][key]
+            persp = MAPS[mname][1]
+            other = "us" if persp == "him" else "him"
+            f = meths[fname]
+            ctx.functions.add(f"{TELNET}:Telnet.{fname}")
+            g = ctx.cfg(f)
+            q = Q + fname
+            sv = f.args.args[1].arg if len(f.args.args) > 1 else "state"
+            nrows += 1
+            send_nodes = call_nodes(g, lambda c: _is_send(c) or _raw_write(c))
+            send_calls = {n: calls_at(g, n, lambda c: _is_send(c) or _raw_write(c)) for n in send_nodes}
+            writes = [(n, w) for n in stmts(g, lambda st: bool(_field_write(st, sv))) for w in _field_write(g.node(n).ast, sv)]
+            # nothing in a table handler may touch the other perspective
+            for n, (p, fld, v) in writes:
+                ctx.check(p == persp, "row/perspective", ctx.construct(q, g.node(n).ast),
+                          f"handler of {mname}{key!r} writes {sv}.{p}.{fld}; a {MAPS[mname][2]} is about the '{persp}' side only")
+            mine = [(n, fld, v) for n, (p, fld, v) in writes if p == persp]
+            kind = row[0]
+            if kind in ("noop", "bogus", "ack"):
+                for n in send_nodes:
+                    ctx.check(False, "loop-freedom/no-reply", ctx.construct(q, g.node(n).ast),
+                              f"row {mname}{key!r} ({'already in the requested state' if kind == 'noop' else 'acknowledgement of our own request' if kind == 'ack' else 'unreachable'}) "
+                              "answers the peer: two such endpoints bounce messages forever (RFC 1143)")
+                if not send_nodes:
+                    ctx.ok("loop-freedom/no-reply", q)
+            if kind == "noop":
+                for n, fld, v in mine:
+                    ctx.check(False, "row/noop-keeps-state", ctx.construct(q, g.node(n).ast),
+                              f"row {mname}{key!r} must not change {sv}.{persp}.{fld}")
+                if not mine:
+                    ctx.ok("row/noop-keeps-state", q)
+            elif kind == "ack":
+                newstate, fire = row[1], row[2]
+                clears = [n for n, fld, v in mine if fld == "negotiating" and const_is(v, False)]
+                detach = [n for n, fld, v in mine if fld == "onResult" and const_is(v, None)]
+                swrites = [(n, v) for n, fld, v in mine if fld == "state"]
+                # local(s) holding the detached Deferred
+                dvars = {t.id for st in statements(f) if isinstance(st, ast.Assign) and is_attr(st.value, f"{sv}.{persp}", "onResult")
+                         for t in st.targets if isinstance(t, ast.Name)}
+                def is_fire(c, any_kind=True):
+                    if not (isinstance(c.func, ast.Attribute) and c.func.attr in ("callback", "errback")):
+                        return False
+                    r = c.func.value
+                    return (isinstance(r, ast.Name) and r.id in dvars) or is_attr(r, f"{sv}.{persp}", "onResult")
+                fires = call_nodes(g, is_fire)
+                ctx.check(len(fires) == 1, "ack/fires-once", q,
+                          f"row {mname}{key!r} must fire the request Deferred at exactly one site (found {len(fires)})")
+                for n, fld, v in mine:
+                    if fld == "negotiating" and not const_is(v, False):
+                        ctx.check(False, "ack/clears-negotiating", ctx.construct(q, g.node(n).ast), "an acknowledgement row sets negotiating to something other than False")
+                    if fld == "onResult" and not const_is(v, None):
+                        ctx.check(False, "ack/detaches", ctx.construct(q, g.node(n).ast), "an acknowledgement row stores a new onResult")
+                w = edge_path(g, [g.entry], [g.exit], avoid_nodes=clears)
+                ctx.check(bool(clears) and w is None, "ack/clears-negotiating", q,
+                          f"{sv}.{persp}.negotiating stays True after the peer answered: every later request fails with AlreadyNegotiating and "
+                          "the next answer is routed to the *_true row again", witness=g.describe(w))
+                w = edge_path(g, [g.entry], [g.exit], avoid_nodes=detach)
+                ctx.check(bool(detach) and w is None, "ack/detaches", q,
+                          f"{sv}.{persp}.onResult is not reset to None: connectionLost (or the next answer) fires the same Deferred again",
                           witness=g.describe(w))
-        elif kind == "reply":
-            newstate, pos, neg = row[1], row[2], row[3]
-            allowed = {pos} | ({neg} if neg else set())
-            for n, fld, v in mine:
-                if fld != "state":
-                    ctx.check(False, "reply/fields", ctx.construct(q, g.node(n).ast),
-                              f"an unsolicited {MAPS[mname][2]} is not an answer to our request; {sv}.{persp}.{fld} must not be touched")
-            for n in send_nodes:
-                for c in send_calls[n]:
-                    ctx.check(_is_send(c) and c.func.attr in allowed, "reply/polarity", ctx.construct(q, c),
-                              f"row {mname}{key!r} may only answer with {sorted(allowed)}")
-            w = edge_path(g, [g.entry], [g.exit], avoid_nodes=send_nodes)
-            ctx.check(bool(send_nodes) and w is None, "reply/exactly-one", q,
-                      f"a state-changing {MAPS[mname][2]} can go unanswered: the peer's request Deferred never fires", witness=g.describe(w))
-            for a in send_nodes:
-                w = edge_path(g, [a], send_nodes, strict=True)
-                ctx.check(w is None and len(send_calls[a]) == 1, "reply/exactly-one", ctx.construct(q, g.node(a).ast),
-                          "two replies can be sent for one received command", witness=g.describe(w))
-            pos_nodes = [n for n in send_nodes if any(_is_send(c) and c.func.attr == pos for c in send_calls[n])]
-            neg_nodes = [n for n in send_nodes if n not in pos_nodes]
-            sw_good = [n for n, fld, v in mine if fld == "state" and const_is(v, newstate)]
-            for n, fld, v in mine:
-                if fld == "state":
-                    ctx.check(const_is(v, newstate), "reply/state-coupled", ctx.construct(q, g.node(n).ast),
-                              f"row {mname}{key!r} may only set {sv}.{persp}.state = {newstate!r}")
-            ctx.check(bool(pos_nodes), "reply/polarity", q + f" | {pos}", f"row {mname}{key!r} never answers {pos}: the option can never change state")
-            for p in pos_nodes:
-                # every path entry -> p passes a state write, or every path p -> exit does
-                before = edge_path(g, [g.entry], [p], avoid_nodes=sw_good)
-                after = edge_path(g, [p], [g.exit], avoid_nodes=sw_good, strict=True)
-                ctx.check(bool(sw_good) and (before is None or after is None), "reply/state-coupled", ctx.construct(q, g.node(p).ast),
-                          f"{pos} is sent without recording {sv}.{persp}.state = {newstate!r}: we told the peer the option changed but "
-                          "believe it did not", witness=g.describe(before))
-            for nn in neg_nodes:
-                w1 = edge_path(g, sw_good, [nn]) if sw_good else None
-                w2 = edge_path(g, [nn], sw_good, strict=True) if sw_good else None
-                ctx.check(w1 is None and w2 is None, "reply/state-coupled", ctx.construct(q, g.node(nn).ast),
-                          f"the refusal is sent on a path that also records {sv}.{persp}.state = {newstate!r}", witness=g.describe(w1 or w2))
-    ctx.floor("rows", nrows, 12, "table handlers")
+                w = edge_path(g, [g.entry], [g.exit], avoid_nodes=fires)
+                ctx.check(bool(fires) and w is None, "ack/fires-once", q + " | every path",
+                          "the handler can return without firing the request Deferred: the caller waits forever", witness=g.describe(w))
+                for fn_ in fires:
+                    c = calls_at(g, fn_, is_fire)[0]
+                    isname = isinstance(c.func.value, ast.Name)
+                    ctx.check(isname, "ack/detaches", ctx.construct(q, c), "the Deferred is fired through the attribute, not through a detached local")
+                    ctx.check(c.func.attr == fire, "ack/result-kind", ctx.construct(q, c),
+                              f"row {mname}{key!r} must {fire} (the peer {'refused' if fire == 'errback' else 'agreed'})")
+                    if fire == "callback":
+                        ctx.check(len(c.args) == 1 and const_is(c.args[0], True), "ack/result-kind", ctx.construct(q, c) + " | value",
+                                  "a successful negotiation fires with True")
+                    else:
+                        ctx.check(len(c.args) == 1 and "OptionRefused" in src(c.args[0]), "ack/result-kind", ctx.construct(q, c) + " | value",
+                                  "a refused negotiation fails with OptionRefused")
+                    for what, nodes, why in (("negotiating cleared", clears, "a callback that issues a new request sees AlreadyNegotiating"),
+                                             ("onResult detached", detach, "a re-entrant answer or connectionLost fires it a second time"),
+                                             ("state updated", [n for n, v in swrites], "a callback observes the stale option state")):
+                        if not nodes:
+                            continue
+                        w = g.must_precede(nodes, [fn_], exc=False)
+                        ctx.check(w is None, "ack/fire-last", ctx.construct(q, c) + f" | {what}",
+                                  f"the Deferred is fired before {what}: {why}", witness=g.describe(w))
+                    w = edge_path(g, [fn_], [fn_], strict=True)
+                    ctx.check(w is None, "ack/fires-once", ctx.construct(q, c) + " | loop", "the fire site can execute twice")
+                if newstate is None:
+                    for n, v in swrites:
+                        ctx.check(False, "ack/state", ctx.construct(q, g.node(n).ast), f"a refusal must leave {sv}.{persp}.state unchanged")
+                    if not swrites:
+                        ctx.ok("ack/state", q)
+                else:
+                    good = [n for n, v in swrites if const_is(v, newstate)]
+                    for n, v in swrites:
+                        ctx.check(const_is(v, newstate), "ack/state", ctx.construct(q, g.node(n).ast),
+                                  f"row {mname}{key!r} must set {sv}.{persp}.state = {newstate!r}")
+                    w = edge_path(g, [g.entry], [g.exit], avoid_nodes=good)
+                    ctx.check(bool(good) and w is None, "ack/state", q,
+                              f"{sv}.{persp}.state is not set to {newstate!r} although the peer acknowledged: the two sides disagree about the option",
+                              witness=g.describe(w))
+            elif kind == "reply":
+                newstate, pos, neg = row[1], row[2], row[3]
+                allowed = {pos} | ({neg} if neg else set())
+                for n, fld, v in mine:
+                    if fld != "state":
+                        ctx.check(False, "reply/fields", ctx.construct(q, g.node(n).ast),
+                                  f"an unsolicited {MAPS[mname][2]} is not an answer to our request; {sv}.{persp}.{fld} must not be touched")
+                for n in send_nodes:
+                    for c in send_calls[n]:
+                        ctx.check(_is_send(c) and c.func.attr in allowed, "reply/polarity", ctx.construct(q, c),
+                                  f"row {mname}{key!r} may only answer with {sorted(allowed)}")
+                w = edge_path(g, [g.entry], [g.exit], avoid_nodes=send_nodes)
+                ctx.check(bool(send_nodes) and w is None, "reply/exactly-one", q,
+                          f"a state-changing {MAPS[mname][2]} can go unanswered: the peer's request Deferred never fires", witness=g.describe(w))
+                for a in send_nodes:
+                    w = edge_path(g, [a], send_nodes, strict=True)
+                    ctx.check(w is None and len(send_calls[a]) == 1, "reply/exactly-one", ctx.construct(q, g.node(a).ast),
+                              "two replies can be sent for one received command", witness=g.describe(w))
+                pos_nodes = [n for n in send_nodes if any(_is_send(c) and c.func.attr == pos for c in send_calls[n])]
+                neg_nodes = [n for n in send_nodes if n not in pos_nodes]
+                sw_good = [n for n, fld, v in mine if fld == "state" and const_is(v, newstate)]
+                for n, fld, v in mine:
+                    if fld == "state":
+                        ctx.check(const_is(v, newstate), "reply/state-coupled", ctx.construct(q, g.node(n).ast),
+                                  f"row {mname}{key!r} may only set {sv}.{persp}.state = {newstate!r}")
+                ctx.check(bool(pos_nodes), "reply/polarity", q + f" | {pos}", f"row {mname}{key!r} never answers {pos}: the option can never change state")
+                for p in pos_nodes:
+                    # every path entry -> p passes a state write, or every path p -> exit does
+                    before = edge_path(g, [g.entry], [p], avoid_nodes=sw_good)
+                    after = edge_path(g, [p], [g.exit], avoid_nodes=sw_good, strict=True)
+                    ctx.check(bool(sw_good) and (before is None or after is None), "reply/state-coupled", ctx.construct(q, g.node(p).ast),
+                              f"{pos} is sent without recording {sv}.{persp}.state = {newstate!r}: we told the peer the option changed but "
+                              "believe it did not", witness=g.describe(before))
+                for nn in neg_nodes:
+                    w1 = edge_path(g, sw_good, [nn]) if sw_good else None
+                    w2 = edge_path(g, [nn], sw_good, strict=True) if sw_good else None
+                    ctx.check(w1 is None and w2 is None, "reply/state-coupled", ctx.construct(q, g.node(nn).ast),
+                              f"the refusal is sent on a path that also records {sv}.{persp}.state = {newstate!r}", witness=g.describe(w1 or w2))
+    with ctx.section('rows-floor'):
+        ctx.floor("rows", nrows, 12, "table handlers")
 
-    # ---- (d) requesters -------------------------------------------------------------------
     for name, (persp, pointless, snd, exc_name) in REQUESTERS.items():
-        f = ctx.func(TELNET, f"Telnet.{name}")
-        g = ctx.cfg(f)
-        q = Q + name
-        opt = f.args.args[1].arg
-        svars = [t.id for st in statements(f) if isinstance(st, ast.Assign) and isinstance(st.value, ast.Call)
-                 and call_name(st.value) == "self.getOptionState" for t in st.targets if isinstance(t, ast.Name)]
-        ctx.need(svars, f"{name}: s = self.getOptionState(option)")
-        s = svars[0]
-        sends = call_nodes(g, lambda c: _is_send(c) or _raw_write(c))
-        mine = [n for n in sends if any(_is_send(c) and c.func.attr == snd and [src(a) for a in c.args] == [opt] for c in calls_at(g, n, lambda c: True))]
-        for n in sends:
-            if n not in mine:
-                ctx.check(False, "request/sends-own-command", ctx.construct(q, g.node(n).ast), f"{name}() must send {snd}({opt}) and nothing else")
-        if not ctx.check(len(mine) == 1, "request/sends-own-command", q, f"{name}() has {len(mine)} self.{snd}({opt}) sites (exactly one expected)"):
-            continue
-        send = mine[0]
-        writes = [(n, w) for n in stmts(g, lambda st: bool(_field_write(st, s))) for w in _field_write(g.node(n).ast, s)]
-        for n, (p, fld, v) in writes:
-            ctx.check(p == persp and fld in ("negotiating", "onResult"), "request/fields", ctx.construct(q, g.node(n).ast),
-                      f"{name}() may only arm {s}.{persp}.negotiating / onResult (the state changes when the peer answers)")
-        arm = [n for n, (p, fld, v) in writes if p == persp and fld == "negotiating" and const_is(v, True)]
-        def fresh_deferred(n, v):
-            if isinstance(v, ast.Call) and call_attr(v) == "Deferred":
-                return True
-            if isinstance(v, ast.Name):
-                ds = reaching_defs(g, v.id, n)
-                vals = [x for dn in ds for t, x in assigned_pairs(g.node(dn).ast) if isinstance(t, ast.Name) and t.id == v.id]
-                return bool(vals) and all(isinstance(x, ast.Call) and call_attr(x) == "Deferred" for x in vals)
-            return False
-        store = [n for n, (p, fld, v) in writes if p == persp and fld == "onResult" and fresh_deferred(n, v)]
-        # guards of the send and of the arming writes
-        neg_tests = {pp: tests(g, lambda e, pp=pp: is_attr(e, f"{s}.{pp}", "negotiating")) for pp in ("us", "him")}
+        with ctx.section(f"requesters/{name}"):
+            f = ctx.func(TELNET, f"Telnet.{name}")
+            g = ctx.cfg(f)
+            q = Q + name
+            opt = f.args.args[1].arg
+            svars = [t.id for st in statements(f) if isinstance(st, ast.Assign) and isinstance(st.value, ast.Call)
+                     and call_name(st.value) == "self.getOptionState" for t in st.targets if isinstance(t, ast.Name)]
+            ctx.need(svars, f"{name}: s = self.getOptionState(option)")
+            s = svars[0]
+            sends = call_nodes(g, lambda c: _is_send(c) or _raw_write(c))
+            mine = [n for n in sends if any(_is_send(c) and c.func.attr == snd and [src(a) for a in c.args] == [opt] for c in calls_at(g, n, lambda c: True))]
+            for n in sends:
+                if n not in mine:
+                    ctx.check(False, "request/sends-own-command", ctx.construct(q, g.node(n).ast), f"{name}() must send {snd}({opt}) and nothing else")
+            if not ctx.check(len(mine) == 1, "request/sends-own-command", q, f"{name}() has {len(mine)} self.{snd}({opt}) sites (exactly one expected)"):
+                continue
+            send = mine[0]
+            writes = [(n, w) for n in stmts(g, lambda st: bool(_field_write(st, s))) for w in _field_write(g.node(n).ast, s)]
+            for n, (p, fld, v) in writes:
+                ctx.check(p == persp and fld in ("negotiating", "onResult"), "request/fields", ctx.construct(q, g.node(n).ast),
+                          f"{name}() may only arm {s}.{persp}.negotiating / onResult (the state changes when the peer answers)")
+            arm = [n for n, (p, fld, v) in writes if p == persp and fld == "negotiating" and const_is(v, True)]
+            def fresh_deferred(n, v):
+                if isinstance(v, ast.Call) and call_attr(v) == "Deferred":
+                    return True
+                if isinstance(v, ast.Name):
+                    ds = reaching_defs(g, v.id, n)
+                    vals = [x for dn in ds for t, x in assigned_pairs(g.node(dn).ast) if isinstance(t, ast.Name) and t.id == v.id]
+                    return bool(vals) and all(isinstance(x, ast.Call) and call_attr(x) == "Deferred" for x in vals)
+                return False
+            store = [n for n, (p, fld, v) in writes if p == persp and fld == "onResult" and fresh_deferred(n, v)]
+            # guards of the send and of the arming writes
+            neg_tests = {pp: tests(g, lambda e, pp=pp: is_attr(e, f"{s}.{pp}", "negotiating")) for pp in ("us", "him")}
 
-        def state_edges():
-            out = []
-            for t in g.ids(lambda n: n.kind == "test"):
-                e = g.node(t).ast
-                if isinstance(e, ast.Compare) and len(e.ops) == 1 and is_attr(e.left, f"{s}.{persp}", "state") and isinstance(e.comparators[0], ast.Constant):
-                    val = e.comparators[0].value
-                    if val not in ("yes", "no"):
-                        continue
-                    eq = isinstance(e.ops[0], ast.Eq)
-                    if not eq and not isinstance(e.ops[0], ast.NotEq):
-                        continue
-                    # edge on which state != pointless
-                    differs_on_true = (eq and val != pointless) or (not eq and val == pointless)
-                    out.append((t, "T" if differs_on_true else "F"))
-            return out
-        sedges = state_edges()
-        for site, label in [(send, "send")] + [(n, "arm") for n in arm + store]:
-            c = ctx.construct(q, g.node(site).ast)
-            for pp in ("us", "him"):
-                ok = bool(neg_tests[pp]) and edge_path(g, [g.entry], [site], avoid_edges=[(t, "F") for t in neg_tests[pp]]) is None
-                ctx.check(ok, "request/not-while-negotiating", c + f" | {pp}",
-                          f"{name}() proceeds although {s}.{pp}.negotiating may be True: two overlapping negotiations about one option make the "
-                          "answers ambiguous (first Deferred is overwritten and never fires)")
-            ok = bool(sedges) and edge_path(g, [g.entry], [site], avoid_edges=sedges) is None
-            ctx.check(ok, "request/only-if-state-differs", c,
-                      f"{name}() asks for a state the option is already in: the peer (RFC 1143) does not answer and the Deferred never fires")
-        for what, nodes, why in ((f"{s}.{persp}.negotiating = True", arm, "a synchronous answer is dispatched to the *_false row and the request is lost"),
-                                 (f"{s}.{persp}.onResult = Deferred()", store, "a synchronous answer finds no Deferred to fire")):
-            w = g.must_precede(nodes, [send], exc=False)
-            ctx.check(bool(nodes) and w is None, "request/arm-before-send", ctx.construct(q, g.node(send).ast) + f" | {what}",
-                      f"{snd} is sent before {what}: {why}", witness=g.describe(w))
-        # the Deferred returned after the send is the armed one
-        co = set()
-        for n in store:
-            st = g.node(n).ast
-            co |= {t.id for t in getattr(st, "targets", []) if isinstance(t, ast.Name)}
-            co |= {v.id for p, fld, v in _field_write(st, s) if fld == "onResult" and isinstance(v, ast.Name)}
-        rets = [n for n in stmts(g, lambda st: isinstance(st, ast.Return)) if edge_path(g, [send], [n]) is not None]
-        for r in rets:
-            v = g.node(r).ast.value
-            ok = (isinstance(v, ast.Name) and v.id in co) or is_attr(v, f"{s}.{persp}", "onResult")
-            ctx.check(ok, "request/returns-armed-deferred", ctx.construct(q, g.node(r).ast),
-                      f"{name}() returns something other than the Deferred stored in {s}.{persp}.onResult: the caller never learns the outcome")
-        w = edge_path(g, [send], [g.exit], avoid_nodes=rets)
-        ctx.check(bool(rets) and w is None, "request/returns-armed-deferred", q, f"{name}() can fall off its end after sending", witness=g.describe(w))
-        # failure answers
-        for pp in ("us", "him"):
-            for t in neg_tests[pp]:
-                for d in succ_on(g, t, "T"):
-                    bad = edge_path(g, [d], [g.exit], avoid_nodes=stmts(g, lambda st: isinstance(st, ast.Return) and "AlreadyNegotiating" in src(st)))
-                    ctx.check(bad is None, "request/fails-fast", ctx.construct(q, g.node(t).ast),
-                              "a request made while a negotiation is in flight does not fail with AlreadyNegotiating", witness=g.describe(bad))
-        for t, lab in sedges:
-            for d in succ_on(g, t, "F" if lab == "T" else "T"):
-                bad = edge_path(g, [d], [g.exit], avoid_nodes=stmts(g, lambda st: isinstance(st, ast.Return) and exc_name in src(st)))
-                ctx.check(bad is None, "request/fails-fast", ctx.construct(q, g.node(t).ast),
-                          f"a pointless request does not fail with {exc_name}", witness=g.describe(bad))
-
-    # ---- connectionLost drains both perspectives (K6 DRAIN) ----------------------------------
-    f = ctx.func(TELNET, "Telnet.connectionLost")
-    g = ctx.cfg(f)
-    q = Q + "connectionLost"
-    loops = [n for n in g.ids(lambda n: n.kind == "for") if src(g.node(n).ast.iter) in ("self.options.values()", "list(self.options.values())")
-             and isinstance(g.node(n).ast.target, ast.Name)]
-    ctx.need(loops, "connectionLost: for state in self.options.values()")
-    lv = g.node(loops[0]).ast.target.id
-    drained = set()
-    fires = call_nodes(g, lambda c: isinstance(c.func, ast.Attribute) and c.func.attr in ("errback", "callback"))
-    for fn_ in fires:
-        call = calls_at(g, fn_, lambda c: isinstance(c.func, ast.Attribute) and c.func.attr in ("errback", "callback"))[0]
-        recv = call.func.value
-        if isinstance(recv, ast.Attribute) and recv.attr == "onResult":
-            ctx.check(False, "drain/detach-then-fire", ctx.construct(q, call), "fired through the attribute, not a detached local")
-            continue
-        if not isinstance(recv, ast.Name):
-            continue
-        defs = reaching_defs(g, recv.id, fn_)
-        pps = set()
-        for dn in defs:
-            vals = [v for t, v in assigned_pairs(g.node(dn).ast) if isinstance(t, ast.Name) and t.id == recv.id]
-            for v in vals:
+            def state_edges():
+                out = []
+                for t in g.ids(lambda n: n.kind == "test"):
+                    e = g.node(t).ast
+                    if isinstance(e, ast.Compare) and len(e.ops) == 1 and is_attr(e.left, f"{s}.{persp}", "state") and isinstance(e.comparators[0], ast.Constant):
+                        val = e.comparators[0].value
+                        if val not in ("yes", "no"):
+                            continue
+                        eq = isinstance(e.ops[0], ast.Eq)
+                        if not eq and not isinstance(e.ops[0], ast.NotEq):
+                            continue
+                        # edge on which state != pointless
+                        differs_on_true = (eq and val != pointless) or (not eq and val == pointless)
+                        out.append((t, "T" if differs_on_true else "F"))
+                return out
+            sedges = state_edges()
+            for site, label in [(send, "send")] + [(n, "arm") for n in arm + store]:
+                c = ctx.construct(q, g.node(site).ast)
                 for pp in ("us", "him"):
-                    if v is not None and is_attr(v, f"{lv}.{pp}", "onResult"):
-                        pps.add((pp, dn))
-        if not pps:
-            continue
-        for pp, dn in sorted(pps):
-            drained.add(pp)
-            c = ctx.construct(q, call) + f" | {pp}"
-            ctx.check(call.func.attr == "errback", "drain/detach-then-fire", c + " | kind", "a lost connection must fail the pending request")
-            resets = stmts(g, lambda st: any(p == pp and fld == "onResult" and const_is(v, None) for p, fld, v in _field_write(st, lv)))
-            w = edge_path(g, [dn], [fn_], avoid_nodes=resets, strict=True)
-            ctx.check(bool(resets) and w is None, "drain/detach-then-fire", c,
-                      f"{lv}.{pp}.onResult is still set when its Deferred is errbacked: an errback that re-enters (or a second connectionLost) "
-                      "fires it again (AlreadyCalledError)", witness=g.describe(w))
-            nn = tests(g, lambda e: isinstance(e, ast.Compare) and is_attr(e.left, f"{lv}.{pp}", "onResult") and isinstance(e.ops[0], ast.IsNot)
-                       and const_is(e.comparators[0], None))
-            ok = bool(nn) and edge_path(g, loops, [dn], avoid_edges=[(t, "T") for t in nn], strict=True) is None
-            ctx.check(ok, "drain/only-pending", c, f"errback is attempted although {lv}.{pp}.onResult may be None")
-    for pp in ("us", "him"):
-        ctx.check(pp in drained, "drain/both-perspectives", q + f" | {pp}",
-                  f"connectionLost does not fail the pending '{pp}' request Deferreds: they never fire")
-    f2 = ctx.func(TELNET, "TelnetTransport.connectionLost")
-    g2 = ctx.cfg(f2)
-    up = call_nodes(g2, lambda c: call_name(c) == "Telnet.connectionLost" or (isinstance(c.func, ast.Attribute) and c.func.attr == "connectionLost"
-                                                                                and isinstance(c.func.value, ast.Call) and call_name(c.func.value) == "super"))
-    w = edge_path(g2, [g2.entry], [g2.exit, g2.raise_exit], avoid_nodes=up, exc=True)
-    ctx.check(bool(up) and w is None, "drain/reached-from-transport", "twisted.conch.telnet.TelnetTransport.connectionLost",
-              "TelnetTransport.connectionLost can finish without Telnet.connectionLost: pending negotiation Deferreds never fire",
-              witness=g2.describe(w))
+                    ok = bool(neg_tests[pp]) and edge_path(g, [g.entry], [site], avoid_edges=[(t, "F") for t in neg_tests[pp]]) is None
+                    ctx.check(ok, "request/not-while-negotiating", c + f" | {pp}",
+                              f"{name}() proceeds although {s}.{pp}.negotiating may be True: two overlapping negotiations about one option make the "
+                              "answers ambiguous (first Deferred is overwritten and never fires)")
+                ok = bool(sedges) and edge_path(g, [g.entry], [site], avoid_edges=sedges) is None
+                ctx.check(ok, "request/only-if-state-differs", c,
+                          f"{name}() asks for a state the option is already in: the peer (RFC 1143) does not answer and the Deferred never fires")
+            for what, nodes, why in ((f"{s}.{persp}.negotiating = True", arm, "a synchronous answer is dispatched to the *_false row and the request is lost"),
+                                     (f"{s}.{persp}.onResult = Deferred()", store, "a synchronous answer finds no Deferred to fire")):
+                w = g.must_precede(nodes, [send], exc=False)
+                ctx.check(bool(nodes) and w is None, "request/arm-before-send", ctx.construct(q, g.node(send).ast) + f" | {what}",
+                          f"{snd} is sent before {what}: {why}", witness=g.describe(w))
+            # the Deferred returned after the send is the armed one
+            co = set()
+            for n in store:
+                st = g.node(n).ast
+                co |= {t.id for t in getattr(st, "targets", []) if isinstance(t, ast.Name)}
+                co |= {v.id for p, fld, v in _field_write(st, s) if fld == "onResult" and isinstance(v, ast.Name)}
+            rets = [n for n in stmts(g, lambda st: isinstance(st, ast.Return)) if edge_path(g, [send], [n]) is not None]
+            for r in rets:
+                v = g.node(r).ast.value
+                ok = (isinstance(v, ast.Name) and v.id in co) or is_attr(v, f"{s}.{persp}", "onResult")
+                ctx.check(ok, "request/returns-armed-deferred", ctx.construct(q, g.node(r).ast),
+                          f"{name}() returns something other than the Deferred stored in {s}.{persp}.onResult: the caller never learns the outcome")
+            w = edge_path(g, [send], [g.exit], avoid_nodes=rets)
+            ctx.check(bool(rets) and w is None, "request/returns-armed-deferred", q, f"{name}() can fall off its end after sending", witness=g.describe(w))
+            # failure answers
+            for pp in ("us", "him"):
+                for t in neg_tests[pp]:
+                    for d in succ_on(g, t, "T"):
+                        bad = edge_path(g, [d], [g.exit], avoid_nodes=stmts(g, lambda st: isinstance(st, ast.Return) and "AlreadyNegotiating" in src(st)))
+                        ctx.check(bad is None, "request/fails-fast", ctx.construct(q, g.node(t).ast),
+                                  "a request made while a negotiation is in flight does not fail with AlreadyNegotiating", witness=g.describe(bad))
+            for t, lab in sedges:
+                for d in succ_on(g, t, "F" if lab == "T" else "T"):
+                    bad = edge_path(g, [d], [g.exit], avoid_nodes=stmts(g, lambda st: isinstance(st, ast.Return) and exc_name in src(st)))
+                    ctx.check(bad is None, "request/fails-fast", ctx.construct(q, g.node(t).ast),
+                              f"a pointless request does not fail with {exc_name}", witness=g.describe(bad))
 
-    # ---- who may write the negotiation fields / fire the Deferreds (K3) ---------------------------
-    allowed = set(handler_fns) | set(REQUESTERS) | {"connectionLost"}
-    n_w = 0
-    for qual, fn in mod.functions():
-        parts = qual.split(".")
-        in_allowed = len(parts) == 2 and parts[0] == "Telnet" and parts[1] in allowed
-        for st in statements(fn):
-            for p, fld, v in _field_write(st):
-                n_w += 1
-                if not in_allowed:
-                    ctx.check(False, "who-may-write/negotiation-fields", ctx.construct("twisted.conch.telnet." + qual, st),
-                              f"{qual} writes <option>.{p}.{fld}; only the requesters, the table handlers and connectionLost may")
-        if not in_allowed:
-            for c in ast.walk(fn):
-                if isinstance(c, ast.Call) and isinstance(c.func, ast.Attribute) and c.func.attr in ("callback", "errback") \
-                        and isinstance(c.func.value, ast.Attribute) and c.func.value.attr == "onResult":
-                    ctx.check(False, "who-may-write/negotiation-fields", ctx.construct("twisted.conch.telnet." + qual, c),
-                              f"{qual} fires a negotiation Deferred outside the table handlers")
-    ctx.ok("who-may-write/negotiation-fields", "twisted.conch.telnet", f"{n_w} writes, all in requesters/handlers/connectionLost")
-    ctx.floor("who-may-write/negotiation-fields", n_w, 20, "field writes")
+    with ctx.section('drain/connectionLost'):
+        f = ctx.func(TELNET, "Telnet.connectionLost")
+        g = ctx.cfg(f)
+        q = Q + "connectionLost"
+        loops = [n for n in g.ids(lambda n: n.kind == "for") if src(g.node(n).ast.iter) in ("self.options.values()", "list(self.options.values())")
+                 and isinstance(g.node(n).ast.target, ast.Name)]
+        ctx.need(loops, "connectionLost: for state in self.options.values()")
+        lv = g.node(loops[0]).ast.target.id
+        drained = set()
+        fires = call_nodes(g, lambda c: isinstance(c.func, ast.Attribute) and c.func.attr in ("errback", "callback"))
+        for fn_ in fires:
+            call = calls_at(g, fn_, lambda c: isinstance(c.func, ast.Attribute) and c.func.attr in ("errback", "callback"))[0]
+            recv = call.func.value
+            if isinstance(recv, ast.Attribute) and recv.attr == "onResult":
+                ctx.check(False, "drain/detach-then-fire", ctx.construct(q, call), "fired through the attribute, not a detached local")
+                continue
+            if not isinstance(recv, ast.Name):
+                continue
+            defs = reaching_defs(g, recv.id, fn_)
+            pps = set()
+            for dn in defs:
+                vals = [v for t, v in assigned_pairs(g.node(dn).ast) if isinstance(t, ast.Name) and t.id == recv.id]
+                for v in vals:
+                    for pp in ("us", "him"):
+                        if v is not None and is_attr(v, f"{lv}.{pp}", "onResult"):
+                            pps.add((pp, dn))
+            if not pps:
+                continue
+            for pp, dn in sorted(pps):
+                drained.add(pp)
+                c = ctx.construct(q, call) + f" | {pp}"
+                ctx.check(call.func.attr == "errback", "drain/detach-then-fire", c + " | kind", "a lost connection must fail the pending request")
+                resets = stmts(g, lambda st: any(p == pp and fld == "onResult" and const_is(v, None) for p, fld, v in _field_write(st, lv)))
+                w = edge_path(g, [dn], [fn_], avoid_nodes=resets, strict=True)
+                ctx.check(bool(resets) and w is None, "drain/detach-then-fire", c,
+                          f"{lv}.{pp}.onResult is still set when its Deferred is errbacked: an errback that re-enters (or a second connectionLost) "
+                          "fires it again (AlreadyCalledError)", witness=g.describe(w))
+                nn = tests(g, lambda e: isinstance(e, ast.Compare) and is_attr(e.left, f"{lv}.{pp}", "onResult") and isinstance(e.ops[0], ast.IsNot)
+                           and const_is(e.comparators[0], None))
+                ok = bool(nn) and edge_path(g, loops, [dn], avoid_edges=[(t, "T") for t in nn], strict=True) is None
+                ctx.check(ok, "drain/only-pending", c, f"errback is attempted although {lv}.{pp}.onResult may be None")
+        for pp in ("us", "him"):
+            ctx.check(pp in drained, "drain/both-perspectives", q + f" | {pp}",
+                      f"connectionLost does not fail the pending '{pp}' request Deferreds: they never fire")
+    with ctx.section('drain/transport'):
+        f2 = ctx.func(TELNET, "TelnetTransport.connectionLost")
+        g2 = ctx.cfg(f2)
+        up = call_nodes(g2, lambda c: call_name(c) == "Telnet.connectionLost" or (isinstance(c.func, ast.Attribute) and c.func.attr == "connectionLost"
+                                                                                    and isinstance(c.func.value, ast.Call) and call_name(c.func.value) == "super"))
+        w = edge_path(g2, [g2.entry], [g2.exit, g2.raise_exit], avoid_nodes=up, exc=True)
+        ctx.check(bool(up) and w is None, "drain/reached-from-transport", "twisted.conch.telnet.TelnetTransport.connectionLost",
+                  "TelnetTransport.connectionLost can finish without Telnet.connectionLost: pending negotiation Deferreds never fire",
+                  witness=g2.describe(w))
+
+    with ctx.section('who-may-write'):
+        allowed = set(handler_fns) | set(REQUESTERS) | {"connectionLost"}
+        n_w = 0
+        for qual, fn in mod.functions():
+            parts = qual.split(".")
+            in_allowed = len(parts) == 2 and parts[0] == "Telnet" and parts[1] in allowed
+            for st in statements(fn):
+                for p, fld, v in _field_write(st):
+                    n_w += 1
+                    if not in_allowed:
+                        ctx.check(False, "who-may-write/negotiation-fields", ctx.construct("twisted.conch.telnet." + qual, st),
+                                  f"{qual} writes <option>.{p}.{fld}; only the requesters, the table handlers and connectionLost may")
+            if not in_allowed:
+                for c in ast.walk(fn):
+                    if isinstance(c, ast.Call) and isinstance(c.func, ast.Attribute) and c.func.attr in ("callback", "errback") \
+                            and isinstance(c.func.value, ast.Attribute) and c.func.value.attr == "onResult":
+                        ctx.check(False, "who-may-write/negotiation-fields", ctx.construct("twisted.conch.telnet." + qual, c),
+                                  f"{qual} fires a negotiation Deferred outside the table handlers")
+        ctx.ok("who-may-write/negotiation-fields", "twisted.conch.telnet", f"{n_w} writes, all in requesters/handlers/connectionLost")
+        ctx.floor("who-may-write/negotiation-fields", n_w, 20, "field writes")
 
 
 T = TELNET
